@@ -417,8 +417,12 @@ def rule_i8(repo):
     that are inferred from the instantiating terms stay in the result, which is then ill-typed - and the same call
     gives another result the second time, because the table was filled meanwhile."""
     res = RuleResult('C03.I8', 'a table of type instantiations is applied only after the last addition to it', floor=2)
+    from ..inline import inlined
     for rel, qual in (('kernel/term.py', 'Term.subst'), ('kernel/thm.py', 'Thm.substitution')):
         f = repo.func(rel, qual)
+        # the matching step may have been moved into a helper of the module: read it in place
+        f = inlined(f, lambda h: h.parent is None and any(isinstance(c, ast.Call) and call_attr(c) == 'match_incr' for c in ast.walk(h.node)) and
+                    not any(isinstance(c, ast.Call) and call_attr(c) in ('subst', 'subst_type') for c in ast.walk(h.node)))[0]
         cfg = cfg_of(f.node)
         adds, uses = [], []
         # a nested helper that adds to the table counts at its call sites
